@@ -1,5 +1,6 @@
 import json
 import re
+import sys
 import time
 import tokenize
 from collections.abc import Callable, Sequence
@@ -145,6 +146,10 @@ def should_ignore_error(error: Error | str, settings: Settings) -> bool:
 def run_refurb(settings: Settings) -> Sequence[Error | str]:
     # Files may have changed since a previous run in the same process
     get_source_lines.cache_clear()
+
+    # An integer literal (hex, octal, binary) can have more digits than `str()` is willing to print
+    if hasattr(sys, "set_int_max_str_digits"):
+        sys.set_int_max_str_digits(0)
 
     stdout = StringIO()
     stderr = StringIO()
